@@ -616,6 +616,17 @@ func blsThreshold() {
 	if thorough {
 		cfgs = append(cfgs, nt{4, 1}, nt{4, 2}, nt{4, 3}, nt{7, 3}, nt{9, 7}, nt{17, 8}, nt{33, 16}, nt{50, 24}, nt{100, 33}, nt{254, 23}, nt{254, 24}, nt{254, 127}, nt{254, 253})
 	}
+	{ // no configuration twice (labels must be unique)
+		seen := map[nt]bool{}
+		var u []nt
+		for _, c := range cfgs {
+			if !seen[c] {
+				seen[c] = true
+				u = append(u, c)
+			}
+		}
+		cfgs = u
+	}
 	thrNonG1 := nonG1Points(5)
 	msg := detBytes("bls-thr-msg", 0, 48)
 	tag := "c20-threshold"
